@@ -524,6 +524,9 @@ pub struct DumpCase {
     pub routes: u16,
     /// routes per distinct attribute set (1 = every route its own UPDATE)
     pub share: u8,
+    /// the peer receives Add-Path and the daemon only sends it (a one-way negotiation): the dump carries path identifiers
+    #[serde(default)]
+    pub addpath: bool,
 }
 
 pub fn check_dump(c: &DumpCase) -> CheckResult {
@@ -538,7 +541,7 @@ async fn dump(c: &DumpCase) -> CheckResult {
     use std::net::{IpAddr, Ipv4Addr};
     use std::sync::Arc;
     let src = fresh_loopback();
-    let cfg = NeighborCfg { addr: src, remote_asn: 65100, local_asn: 0, rs_client: false, rr_client: false, cluster_id: None, admin_down: false, holdtime: 90, families: vec![(Family::IPV4, 0)], prefix_limit: None, gr: None, llgr: None };
+    let cfg = NeighborCfg { addr: src, remote_asn: 65100, local_asn: 0, rs_client: false, rr_client: false, cluster_id: None, admin_down: false, holdtime: 90, families: vec![(Family::IPV4, if c.addpath { 2 } else { 0 })], prefix_limit: None, gr: None, llgr: None };
     let mut p = WirePeer::new(65000, cfg).await?;
     let n = c.routes.max(1) as u32;
     let share = c.share.max(1) as u32;
@@ -551,7 +554,10 @@ async fn dump(c: &DumpCase) -> CheckResult {
         let _ = p.rig.tables.insert_route(source.clone(), Family::IPV4, PathNlri { path_id: 0, nlri: net }, Some(bgp::Nexthop::V4(Ipv4Addr::new(192, 0, 2, 1))), attrs, None, 1);
     }
     p.connect().await?;
-    let caps = vec![bgp::Capability::MultiProtocol(Family::IPV4), bgp::Capability::FourOctetAsNumber(65100)];
+    let mut caps = vec![bgp::Capability::MultiProtocol(Family::IPV4), bgp::Capability::FourOctetAsNumber(65100)];
+    if c.addpath {
+        caps.push(bgp::Capability::AddPath(vec![(Family::IPV4, 1)]));
+    }
     if !p.establish(65100, 0, 0x0a00_0004, caps.clone()).await? {
         return Err(Failure::new("harness", "the session did not establish".to_string()));
     }
@@ -576,7 +582,9 @@ async fn dump(c: &DumpCase) -> CheckResult {
     }
     let big = p.rx.len() > 65536;
     // (1) framing
-    let mut codec = PeerCodec::negotiate(&caps, &caps);
+    // the peer's decoder: path identifiers iff it advertised "receive" and the daemon "send"
+    let mut codec = PeerCodec::negotiate(&caps[..2], &caps[..2]);
+    codec.set_family(Family::IPV4, bgp::FamilyState { addpath_rx: c.addpath, addpath_tx: false });
     let mut got: BTreeMap<String, usize> = BTreeMap::new();
     let mut pos = 0;
     let mut frames = 0;
@@ -618,7 +626,7 @@ async fn dump(c: &DumpCase) -> CheckResult {
 }
 
 pub fn arb_dump() -> impl Strategy<Value = DumpCase> {
-    (prop_oneof![2 => 1u16..50, 2 => 800u16..1600, 3 => 1600u16..4000], prop_oneof![3 => Just(1u8), 1 => Just(2u8), 1 => Just(50u8)]).prop_map(|(routes, share)| DumpCase { routes, share })
+    (prop_oneof![2 => 1u16..50, 2 => 800u16..1600, 3 => 1600u16..4000], prop_oneof![3 => Just(1u8), 1 => Just(2u8), 1 => Just(50u8)], prop::bool::weighted(0.35)).prop_map(|(routes, share, addpath)| DumpCase { routes, share, addpath })
 }
 
 pub fn run(r: &Run) {
